@@ -30,3 +30,14 @@ Definition resolve (p : bytes) : bytes := clean_rooted p.
 Definition candidates (p : bytes) : list bytes :=
   let c := resolve p in
   [c; (if beq c [47] then txt "/index.html" else c ++ txt "/index.html")].
+
+(** net/http's ServeMux answers a request whose ESCAPED path is not in
+    canonical form by itself, with a 301 to the cleaned path, before any
+    handler runs (cleanPath: path.Clean, with a trailing slash put back). *)
+Definition mux_clean (e : bytes) : bytes :=
+  let np := clean_rooted e in
+  match rev e with
+  | 47 :: _ => if beq np [47] then np else np ++ [47]
+  | _ => np
+  end.
+Definition mux_redirects (e : bytes) : bool := negb (beq (mux_clean e) e).
